@@ -63,7 +63,7 @@ def gen_history(rng, big=False):
         reps = rng.choice([3, 18, 40])
         for _ in range(reps):
             ops.append("s%d:%d" % (rng.randrange(-(1 << 63), 1 << 63), rng.choice([255, 200, 64, 33])))
-        ops += ["l", "b", "i", "I"]
+        ops += ["l", "b", "i", "I", "J"]
     return "bl %d %s" % (n, " ".join(ops))
 
 
@@ -130,7 +130,7 @@ def coq_case(line, impl_out):
         elif c == "g": ops.append("OpGetBit %s" % z(r))
         elif c == "l": ops.append("OpLen")
         elif c == "b": ops.append("OpGetBytes")
-        elif c in ("i", "I"): ops.append("OpIterBytes")
+        elif c in ("i", "I", "J"): ops.append("OpIterBytes")
     outs_s, bits = impl_out.split(" | ") if " | " in impl_out else (impl_out.rstrip(" |"), "")
     outs = []
     for o, tok in zip(t[2:], outs_s.split()):
